@@ -21,7 +21,7 @@ ASSUMPTIONS = [
     "StubDatabase / DetLoop as in C01",
     "token values are concrete distinct integers (combinators never inspect values); tags '<prefix>.<i>' have a concrete prefix and a symbolic last component from a small range (0..2 / 0..3, and 8..11 to straddle the one/two digit boundary; CombinatorStep uses tags as dict keys, so every symbolic tag is realised by the solver: the range is enumerated through the path tree), distinct within a port (duplicate tags on one port are outside the claim)",
     "all tokens of one port have the same depth; a 'shallow' port carries a single token whose tag is the common prefix (the broadcast case of non-scattered inputs)",
-    "tokens are delivered one at a time (put, run to quiescence, next put); combinator trees: dot(a,b), dot(a,b,c), cart(a,b), cart(a,b,c), dot(a,shallow), dot(dot(a,b),shallow), dot(cart(a,b),shallow); cart(<inner combinator>, ...) is never built by the CWL translator and raises AttributeError in CartesianProductCombinator._product (latent, see DESIGN.md) — outside the claim",
+    "tokens are delivered one at a time (put, run to quiescence, next put); combinator trees: dot(a,b), dot(a,b,c), cart(a,b), cart(a,b,c), dot(a,shallow), dot(dot(a,b),shallow), dot(cart(a,b),shallow), dot(a,shallow,root) with three tag depths (root = one token tagged with the parent of the shallow tag); cart(<inner combinator>, ...) is never built by the CWL translator and raises AttributeError in CartesianProductCombinator._product (latent, see DESIGN.md) — outside the claim",
 ]
 
 T = (
@@ -47,6 +47,8 @@ TREES = {
     "dot_bcast": ("dot", ["a", "s"]),
     "dot_dot_bcast": ("dot", [("dot", ["a", "b"]), "s"]),
     "dot_cart_bcast": ("dot", [("cart", ["a", "b"]), "s"]),
+    # three tag depths meeting in one combinator: a = '<prefix>.<i>', s = '<prefix>', r = parent of <prefix>
+    "dot_bcast2": ("dot", ["a", "s", "r"]),
 }
 
 
@@ -186,6 +188,9 @@ def _streams(tree_name, prefix, idx):
                 streams[p] = [(prefix, 900)]
             else:
                 streams[p] = [(q, 900 + j) for j, q in enumerate(prefix["s"])]
+        elif p == "r":
+            root = ".".join(prefix.split(".")[:-1]) if isinstance(prefix, str) else prefix["r"][0]
+            streams[p] = [(root, 950)]
         else:
             streams[p] = [(_pref(prefix, p, k) + "." + str(i), 100 * (pi + 1) + k) for k, i in enumerate(idx[p])]
     return tree, ports, streams
@@ -227,7 +232,7 @@ def prop_exact(tree_name, prefix, idx, order) -> bool:
         return False
     # reference rows: dict value-tuple -> expected tag
     exp = {}
-    deep = [p for p in ports if p != "s"]
+    deep = [p for p in ports if p not in ("s", "r")]
 
     def bcast(pref):
         """value of the shallow token whose tag is exactly `pref` (None if absent)."""
@@ -238,7 +243,7 @@ def prop_exact(tree_name, prefix, idx, order) -> bool:
                 return v
         return None
 
-    if tree_name in ("dot2", "dot3", "dot_bcast", "dot_dot_bcast"):
+    if tree_name in ("dot2", "dot3", "dot_bcast", "dot_dot_bcast", "dot_bcast2"):
         # one row per tag present on every deep port (+ the broadcast token of that prefix)
         first = deep[0]
         for k0, i0 in enumerate(idx[first]):
@@ -258,6 +263,8 @@ def prop_exact(tree_name, prefix, idx, order) -> bool:
             if ok and b is not None:
                 if b != -1:
                     vals.append(b)
+                if "r" in ports:  # the single root token is an ancestor of every deep tag
+                    vals.append(streams["r"][0][1])
                 exp[tuple(vals)] = pref + "." + str(i0)
     elif tree_name in ("cart2", "cart3", "dot_cart_bcast"):
         import itertools
@@ -300,7 +307,7 @@ def _spec(tree_name, counts, K, fn, prefix="0", lo=0, hi=2, cond=900, first=None
     """counts: {port: ntokens}; K symbolic merge choices; first: concrete value of the
     first choice (partition); prefix: str or {port: [concrete prefix per token]}."""
     tree = TREES[tree_name]
-    ports = [p for p in _leaves(tree) if p != "s"]
+    ports = [p for p in _leaves(tree) if p not in ("s", "r")]
     names = {p: [f"{p}{k}" for k in range(counts[p])] for p in ports}
     cs = [f"m{i}" for i in range(K)]
     sym_cs = cs if first is None else cs[1:]
@@ -317,6 +324,7 @@ def _spec(tree_name, counts, K, fn, prefix="0", lo=0, hi=2, cond=900, first=None
     idx = "{" + ", ".join(f"{p!r}: [{', '.join(names[p])}]" for p in ports) + "}"
     order = "[" + ", ".join(([str(first)] if first is not None else []) + sym_cs) + "]"
     nshallow = 0 if "s" not in _leaves(tree) else (1 if isinstance(prefix, str) else len(prefix["s"]))
+    nshallow += 1 if "r" in _leaves(tree) else 0
     total = sum(counts.values()) + nports + nshallow
     cn = "".join(f"{p}{counts[p]}" for p in ports)
     return Spec(
@@ -336,6 +344,7 @@ def _spec(tree_name, counts, K, fn, prefix="0", lo=0, hi=2, cond=900, first=None
 # parent tags that are string-prefixes of one another but different tags
 MIXED = {"a": ["0.1", "0.10"], "s": ["0.1", "0.10"]}
 MIXED2 = {"a": ["0.1", "0.10"], "b": ["0.10", "0.1"], "s": ["0.10"]}
+MIXED3 = {"a": ["0.1", "0.10"], "s": ["0.1", "0.10"], "r": ["0"]}
 
 
 def specs(tier: str):
@@ -357,6 +366,8 @@ def specs(tier: str):
         out.append(_spec("dot_bcast", {"a": 2}, 4, "exact", prefix=MIXED, hi=1, tagname="_mixedparents"))
         out.append(_spec("dot_dot_bcast", {"a": 2, "b": 2}, 3, "exact", prefix=MIXED2, hi=1, tagname="_mixedparents"))
         out.append(_spec("dot_cart_bcast", {"a": 2, "b": 2}, 3, "exact", prefix=MIXED2, hi=1, tagname="_mixedparents"))
+        for f in (0, 1, 2):
+            out.append(_spec("dot_bcast2", {"a": 2}, 4, "exact", prefix="0.1", hi=1, first=f, tagname="_3depths"))
         out.append(_spec("dot2", two, 3, "order_invariant", hi=1))
     else:
         for f in (0, 1):
@@ -375,6 +386,8 @@ def specs(tier: str):
             out.append(_spec("cart3", {"a": 2, "b": 2, "c": 1}, 4, "exact", hi=1, cond=3000, first=f))
             out.append(_spec("dot_dot_bcast", {"a": 2, "b": 2}, 4, "exact", prefix=MIXED2, hi=1, tagname="_mixedparents", cond=3000, first=f))
             out.append(_spec("dot_cart_bcast", {"a": 2, "b": 2}, 4, "exact", prefix=MIXED2, hi=1, tagname="_mixedparents", cond=3000, first=f))
+            out.append(_spec("dot_bcast2", {"a": 2}, 5, "exact", prefix="0.1", hi=2, first=f, tagname="_3depths", cond=3000))
+            out.append(_spec("dot_bcast2", {"a": 2}, 4, "exact", prefix=MIXED3, hi=1, first=f, tagname="_3depths_mixedparents", cond=3000))
         out.append(_spec("dot2", two, 4, "exact", lo=8, hi=11, tagname="_8to11", cond=3000))
         out.append(_spec("cart2", two, 4, "exact", lo=8, hi=11, tagname="_8to11", cond=3000))
         out.append(_spec("dot2", {"a": 3, "b": 2}, 4, "order_invariant", hi=2, cond=3000))
